@@ -73,10 +73,14 @@ def rk4(get_comp_rates, initial_population, times, model_params, model_data):
         comp_vals = out_vals[i]
 
         k1 = get_comp_rates(comp_vals, t, model_params, model_data)
-        k2 = get_comp_rates(comp_vals + k1 / 2, t + timestep / 2, model_params, model_data)
-        k3 = get_comp_rates(comp_vals + k2 / 2, t + timestep / 2, model_params, model_data)
-        k4 = get_comp_rates(comp_vals + k3, t + timestep, model_params, model_data)
-        comp_vals = comp_vals + (1 / 6) * (k1 + 2 * k2 + 2 * k3 + k4)
+        k2 = get_comp_rates(
+            comp_vals + timestep * k1 / 2, t + timestep / 2, model_params, model_data
+        )
+        k3 = get_comp_rates(
+            comp_vals + timestep * k2 / 2, t + timestep / 2, model_params, model_data
+        )
+        k4 = get_comp_rates(comp_vals + timestep * k3, t + timestep, model_params, model_data)
+        comp_vals = comp_vals + (timestep / 6) * (k1 + 2 * k2 + 2 * k3 + k4)
 
         out_vals = out_vals.at[i + 1].set(comp_vals)
         return i + 1, out_vals
